@@ -113,4 +113,70 @@ CONTRACTS = {
         assumptions=['np.float32(ratio) is the ratio itself (single-precision rounding of the ratio ignored)',
                      '1-D inputs: vector_first.shape[1] raises IndexError, which the bare except swallows (modelled)'],
     ),
+
+    # ---------------------------------------------------------------- C17: 3MR greedy ranking
+    'rank_features_3MR.calc_higher_order': dict(
+        strings='opaque',
+        params={'feature': 'str', 'is_redundancy': 'bool', 'ranked_features': 'list[str]',
+                'redundancy_dict': 'dict[tuple[str,str],real]', 'relational_dict': 'dict[tuple[str,str],real]', 'strategy': 'str'},
+        local_kinds={'values': 'list[real]'},
+        unfold=['agg3', 'vals3'],
+        returns='real',
+        pure=('ite(is_redundancy, '
+              'agg3(strategy, redundancy_dict, ranked_features, len(ranked_features), feature), '
+              'agg3(strategy, relational_dict, ranked_features, len(ranked_features), feature))'),
+        ensures=[],
+        loops={1: dict(index='k', inv=[
+            ('values', 'len(values) == k and all(values[i] == ite(is_redundancy, '
+                       'vals3(redundancy_dict, ranked_features, len(ranked_features), feature)[i], '
+                       'vals3(relational_dict, ranked_features, len(ranked_features), feature)[i]) for i in range(k))'),
+        ])},
+    ),
+    'rank_features_3MR': dict(
+        strings='opaque',
+        params={'relevance_dict': 'dict[str,real]', 'redundancy_dict': 'dict[tuple[str,str],real]',
+                'relational_dict': 'dict[tuple[str,str],real]', 'strategy': 'str', 'alpha': 'real', 'beta': 'real'},
+        local_kinds={'most_important_feature': 'opt[str]', 'top_importance': 'real#ext'},
+        lemmas=['agg3_prefix'],
+        asserts={'loop#1.end': [
+            ('prefix_red', 'all(forall(lambda f: agg3(strategy, redundancy_dict, ranked_features, t, f) == '
+                           'agg3(strategy, redundancy_dict, prev(ranked_features), t, f), "str") for t in range(0, len(prev(ranked_features)) + 1))'),
+            ('prefix_rel', 'all(forall(lambda f: agg3(strategy, relational_dict, ranked_features, t, f) == '
+                           'agg3(strategy, relational_dict, prev(ranked_features), t, f), "str") for t in range(0, len(prev(ranked_features)) + 1))'),
+            ('prefix_cells', 'len(ranked_features) == len(prev(ranked_features)) + 1 and '
+                             'all(ranked_features[i] == prev(ranked_features)[i] for i in range(len(prev(ranked_features))))'),
+        ]},
+        requires=[('nonempty', 'len(relevance_dict) >= 1')],
+        returns={'__class__': 'ColumnsFrame'},
+        ensures=[
+            ('every_feature_once', 'len(result["Feature"]) == len(relevance_dict) and '
+                                   'all(result["Feature"][i] in relevance_dict for i in range(len(result["Feature"]))) and '
+                                   'all(result["Feature"][i] != result["Feature"][j] for j in range(len(result["Feature"])) for i in range(j))'),
+            ('starts_with_max_relevance', 'forall(lambda f: implies(f in relevance_dict, relevance_dict[f] <= relevance_dict[result["Feature"][0]]), "str")'),
+            ('greedy_optimal', 'all(forall(lambda f: implies((f in relevance_dict) and not (f in result["Feature"][:t]), '
+                               + '(relevance_dict[f] - alpha * agg3(strategy, redundancy_dict, result["Feature"], t, f) + beta * agg3(strategy, relational_dict, result["Feature"], t, f)) <= (relevance_dict[result["Feature"][t]] - alpha * agg3(strategy, redundancy_dict, result["Feature"], t, result["Feature"][t]) + beta * agg3(strategy, relational_dict, result["Feature"], t, result["Feature"][t]))), "str") '
+                               'for t in range(1, len(result["Feature"])))'),
+            ('ranks_1_to_n', 'len(result["3MR_Ranking"]) == len(result["Feature"]) and '
+                             'all(result["3MR_Ranking"][t] == t + 1 for t in range(len(result["Feature"])))'),
+        ],
+        loops={
+            1: dict(inv=[
+                ('size', 'len(ranked_features) >= 1 and len(ranked_features) <= len(all_features) and len(all_features) == len(relevance_dict)'),
+                ('universe', 'forall(lambda f: (f in all_features) == (f in relevance_dict), "str")'),
+                ('members', 'all(ranked_features[i] in relevance_dict for i in range(len(ranked_features)))'),
+                ('distinct', 'all(ranked_features[i] != ranked_features[j] for j in range(len(ranked_features)) for i in range(j))'),
+                ('first', 'forall(lambda f: implies(f in relevance_dict, relevance_dict[f] <= relevance_dict[ranked_features[0]]), "str")'),
+                ('greedy', 'all(forall(lambda f: implies((f in relevance_dict) and not (f in ranked_features[:t]), '
+                           '(relevance_dict[f] - alpha * agg3(strategy, redundancy_dict, ranked_features, t, f) + beta * agg3(strategy, relational_dict, ranked_features, t, f)) <= (relevance_dict[ranked_features[t]] - alpha * agg3(strategy, redundancy_dict, ranked_features, t, ranked_features[t]) + beta * agg3(strategy, relational_dict, ranked_features, t, ranked_features[t]))), "str") '
+                           'for t in range(1, len(ranked_features)))'),
+            ], decreases='len(all_features) - len(ranked_features)'),
+            2: dict(index='k', inv=[
+                ('start', 'implies(k == 0, is_neg_inf(top_importance) and most_important_feature is None)'),
+                ('best_some', 'implies(k >= 1, (most_important_feature is not None) and finite(top_importance))'),
+                ('best_member', 'implies(k >= 1, any(some(most_important_feature) == k_seq[i] for i in range(k)))'),
+                ('best_value', 'implies(k >= 1, top_importance == (relevance_dict[some(most_important_feature)] - alpha * agg3(strategy, redundancy_dict, ranked_features, len(ranked_features), some(most_important_feature)) + beta * agg3(strategy, relational_dict, ranked_features, len(ranked_features), some(most_important_feature))))'),
+                ('best_bound', 'implies(k >= 1, all((relevance_dict[k_seq[i]] - alpha * agg3(strategy, redundancy_dict, ranked_features, len(ranked_features), k_seq[i]) + beta * agg3(strategy, relational_dict, ranked_features, len(ranked_features), k_seq[i])) <= top_importance for i in range(k)))'),
+            ]),
+        },
+    ),
 }
